@@ -52,8 +52,19 @@ def kv_from(a, b, p, knots, mults):
     return U
 
 
-def kv(rng, p=None, nint=None, itv=None, pmax=4, nintmax=4, maxmult=None, want_zero=None):
-    """random clamped knot vector (list of Fractions)"""
+LARGE_P = 0.0  # set by the worker from the check's LARGE attribute: share of the free-size vectors drawn from the large class
+LARGE_MAX = 64  # ... and the largest number of control points of that class (LARGE = (share, max) in the check)
+
+
+def kv(rng, p=None, nint=None, itv=None, pmax=4, nintmax=4, maxmult=None, want_zero=None, large=True):
+    """random clamped knot vector (list of Fractions). Large class (only when the caller leaves degree and size free):
+    degree up to 8, 9..28 distinct interior knots, 17..64 control points - beyond every size threshold a "fast path"
+    could sit at (16, 32, 48)"""
+    large = large and LARGE_P and p is None and nint is None and rng.random() < LARGE_P
+    if large:
+        # the capped variant (checks whose operations are cubic or worse in exact arithmetic) stays at degree <= 5
+        p = rng.choice([5, 6, 7, 8, rng.randint(0, 4), rng.randint(1, 4)]) if LARGE_MAX >= 40 else (rng.choice([1, 2, 3, 3, 4, 5]) if LARGE_MAX >= 22 else rng.choice([1, 2, 2, 3]))
+        nint = rng.randint(9, 28) if LARGE_MAX >= 40 else rng.randint(max(9, 17 - p), max(10, LARGE_MAX - p - 1))
     p = rng.randint(0, pmax) if p is None else p
     nint = rng.randint(0, nintmax) if nint is None else nint
     a, b = itv or interval(rng)
@@ -62,12 +73,22 @@ def kv(rng, p=None, nint=None, itv=None, pmax=4, nintmax=4, maxmult=None, want_z
     style = rng.random()
     mults = []
     for _ in ks:
-        if style < 0.35:
+        if large:
+            mults.append(1 if rng.random() < 0.75 else rng.randint(1, mm))
+        elif style < 0.35:
             mults.append(1)
         elif style < 0.5:
             mults.append(mm)
         else:
             mults.append(rng.randint(1, mm))
+    if large:
+        while sum(mults) + p + 1 > LARGE_MAX:
+            i = max(range(len(mults)), key=lambda j: mults[j])
+            if mults[i] > 1:
+                mults[i] -= 1
+            else:
+                mults.pop()
+                ks.pop()
     return kv_from(a, b, p, ks, mults)
 
 
@@ -91,18 +112,30 @@ def weights(rng, n, maxratio=45):
     pool = [F(1), F(2), F(3), F(1, 2), F(3, 2), F(5), F(1, 3), F(2, 3), F(7, 2), F(9), F(1, 5)]
     if maxratio <= 9:
         pool = [F(1), F(2), F(3), F(1, 2), F(3, 2), F(2, 3), F(1, 3), F(5, 2)]
+    r = rng.random()
+    if n > 1 and r < 0.12:
+        # all weights equal but not 1: the curve is a polynomial spline stored as a rational one
+        return [rng.choice([x for x in pool if x != 1])] * n
+    if n > 1 and r < 0.2:
+        # one weight differs from all the others
+        c = rng.choice(pool)
+        w = [c] * n
+        w[rng.randrange(n)] = rng.choice([x for x in pool if x != c])
+        return w
     w = [rng.choice(pool) for _ in range(n)]
     if all(x == w[0] for x in w) and n > 1 and rng.random() < 0.8:
         w[rng.randrange(n)] = w[0] * 2
     return w
 
 
-def curve(rng, p=None, nint=None, dim=None, rational=None, itv=None, pmax=4, nintmax=4, maxmult=None, big=False, wratio=45, want_zero=None, magnitudes=False):
+def curve(rng, p=None, nint=None, dim=None, rational=None, itv=None, pmax=4, nintmax=4, maxmult=None, big=False, wratio=45, want_zero=None, magnitudes=False, large=True):
     """dict(U, P, W) with exact numbers; magnitudes=True: 8% of the curves get control values of size 1e-9 or 1e6"""
-    U = kv(rng, p, nint, itv, pmax, nintmax, maxmult, want_zero)
+    U = kv(rng, p, nint, itv, pmax, nintmax, maxmult, want_zero, large)
     pp, n = ref.wellformed(U)
     dim = rng.choice([0, 0, 2, 3]) if dim is None else dim
     rational = (rng.random() < 0.4) if rational is None else rational
+    if n > 16 and LARGE_MAX < 40:
+        rational = False  # capped large class: polynomial curves only (rational products explode in exact arithmetic)
     P = points(rng, n, dim, big)
     if magnitudes and rng.random() < 0.08:
         sc = rng.choice([F(1, 10**9), F(10**6)])
